@@ -1579,7 +1579,12 @@ def check_restart(case):
         watched = {sig(x) for x in case["listeners"]}
         spare = [dict(kind="light", type="umbra", frame=None), dict(kind="light", type="penumbra", frame=None),
                  dict(kind="terminator")]
-        sec_listeners = ([x for x in sec_listeners if sig(x) not in watched]
+        def on_a_stored_zero(x):
+            # an anomaly of 0 or +-pi is reached exactly AT the apsides (argument of latitude: at the nodes), whose
+            # states the first stream may have yielded and which are then stored points of the ephemeris
+            return x["kind"] == "anomaly" and abs(math.remainder(x.get("value", 1.0), math.pi)) < 1e-6
+
+        sec_listeners = ([x for x in sec_listeners if sig(x) not in watched and not on_a_stored_zero(x)]
                          or [x for x in spare if sig(x) not in watched][:1])
     case2 = dict(case, listeners=sec_listeners, n=sec["n"], prop="kepler", offset=0.0)
     specs2, lis2 = make_listeners(case2)
@@ -1674,6 +1679,20 @@ SWAPS = {"Periapsis": "Apoapsis", "Apoapsis": "Periapsis", "Umbra entry": "Umbra
          "Penumbra entry": "Penumbra exit", "Penumbra exit": "Penumbra entry", "AOS": "LOS", "LOS": "AOS"}
 
 
+def _same_angle_label(a, b):
+    """'Mean Anomaly = 0.00' and 'Mean Anomaly = 360.00' name the same crossing (the label prints the anomaly found at
+    the event, rounded to 0.01 deg)."""
+    pa, _, va = a.rpartition(" = ")
+    pb, _, vb = b.rpartition(" = ")
+    if not pa or pa != pb:
+        return False
+    try:
+        d = (float(va) - float(vb)) % 360.0
+    except ValueError:
+        return False
+    return min(d, 360.0 - d) <= 0.011
+
+
 @st.composite
 def backward_case(draw, shard, tier):
     case = draw(source_spec(("kepler", "kepler", "j2", "ephem")))
@@ -1719,7 +1738,7 @@ def check_backward(case):
     for f, b in zip(fe, be):
         if abs(f.us - b.us) > 3:
             raise Violation("backward-date", f"{what}: '{f.label}' at {f.us} us forward, '{b.label}' at {b.us} us backward")
-        if f.label != b.label:
+        if f.label != b.label and not _same_angle_label(f.label, b.label):
             kind = gs[f.lis].kind
             data = dict(listener=kind, swapped=SWAPS.get(f.label) == b.label, forward=f.label, backward=b.label)
             msg = (f"{what}: the crossing at t = {f.us / 1e6} s is '{f.label}' when iterating forward and '{b.label}' when "
